@@ -1,11 +1,13 @@
 #!/bin/sh
 # usage: try.sh <patch> <fvc args...>   runs fvc against a scratch copy of /repo with the patch applied
+# (TRY_SRC / TRY_SPEC / TRY_FVC select a snapshot of the sources, specs and verifier to use)
 V=$(cd "$(dirname "$0")/.." && pwd)
 p=$(realpath "$1"); shift
+SRC=${TRY_SRC:-/repo}; SPEC=${TRY_SPEC:-$V/spec}; FVC=${TRY_FVC:-$V/bin/fvc}
 S=$(mktemp -d /tmp/fvc-try.XXXXXX)
-mkdir -p "$S/repo"; cp -r /repo/*.go /repo/go.mod /repo/go.sum "$S/repo/"
+mkdir -p "$S/repo"; cp "$SRC"/*.go "$SRC"/go.mod "$SRC"/go.sum "$S/repo/"
 (cd "$S/repo" && patch -p1 -s < "$p") || { echo "patch does not apply"; rm -rf "$S"; exit 2; }
-FVC_REPO="$S/repo" FVC_VERIF="$S/verif" FVC_SPEC="$V/spec" FVC_SCRATCH="$S/scratch" "$V/bin/fvc" "$@"
+FVC_REPO="$S/repo" FVC_VERIF="$S/verif" FVC_SPEC="$SPEC" FVC_SCRATCH="$S/scratch" "$FVC" "$@"
 rc=$?
 rm -rf "$S"
 exit $rc
